@@ -47,7 +47,8 @@ def signal_transform(func):
             raise TypeError("Signal type must be a subclass of pulsarbat.Signal!")
 
         if isinstance(x.data, da.Array):
-            z = da.map_blocks(func, x.data, **dask_kwargs, **kwargs)
+            f = functools.partial(func, **kwargs) if kwargs else func
+            z = da.map_blocks(f, x.data, **dask_kwargs)
         else:
             z = func(x.data, **kwargs)
 
